@@ -82,7 +82,7 @@ def build_targets(case, res, conv):
                 wx = [FR(v) for v in w]
                 for c in conds:
                     a, b = c.closed(0)
-                    if b - dot(a, wx) < -SLACK:
+                    if b - dot(a, wx) < -(SLACK + FR(16, 2**53) * (abs(b) + sum(abs(p * q) for p, q in zip(a, wx)))):
                         findings.append(("unsound-witness", "plan %s: node %d caches witness %s which violates its path condition %s by %.3g" % (
                             case["meta"]["plan"], idx, w, c, float(dot(a, wx) - b)), "structural"))
                         break
